@@ -12,7 +12,7 @@ def fill(claim, na):
     claim("C17",
           "must-dataflow over CFG branch facts (half-open bound dominates every index/translated forward); "
           "empty-optional edge must reach exit only via throw; linear forms over accessors for the extents each Volume "
-          "is created with",
+          "is created with; coordinate consistency (linear forms through the constructor) of the bound in Volume::Access",
           "Decides the bound clause for all inputs: every override of DataAccess::read_block and the sector cache "
           "index or forward only under `arg < count` on every CFG path, and a failed body read can only throw. "
           "Each Opus volume's window is (start, length) from the disc catalogue and is what Volume::Access checks "
@@ -36,7 +36,8 @@ def fill(claim, na):
           "agreement folded from the AST; exit-status value set; diagnose-on-failure classification from main; "
           "cursor/remaining-length must-facts and per-block pairing in the token decoders; type-range intervals "
           "refined by dominating comparisons for input-dependent subscripts and the lengths of library calls on fixed "
-          "arrays; path-sensitive resource typestate (allocate/release/NULL) for locally released pointers",
+          "arrays; path-sensitive resource typestate (allocate/release/NULL) for locally released pointers; must-analysis "
+          "`table filled` for the extension-table builders; NULL-able table strings vs. non-NULL facts",
           "Decides, for every command line and input, that option state is initialised in both builds, that no option "
           "handler can see a NULL optarg or an unset long index, that main returns 0 or 1 without exit/abort and never "
           "silently, that every byte read through the token cursor is covered by a remaining-length guard, and that "
@@ -121,7 +122,8 @@ def fill(claim, na):
           "bit-provenance domain for the start-sector/length fields; provenance of the media argument of every "
           "body read (call-graph, through locals and parameters); structural accounting rule of the sector walk "
           "with constant folding of the empty-file case; shape rule for last_sector(); contradiction rule on table-walking "
-          "loops (an early `continue` whose condition cannot change on the continue path)",
+          "loops (an early `continue` whose condition cannot change on the continue path); linear form of the Opus "
+          "catalogue slot; must-analysis `sorted before extents are derived`",
           "Decides structural clauses for every catalogue value: right bits, right volume, remaining-length "
           "accounting, empty file hands over nothing, no table walk (Opus volume table) silently stops at its first "
           "skipped entry. Unrecognised code shapes are reported as undecided (exit 2), "
@@ -131,7 +133,7 @@ def fill(claim, na):
     claim("C03",
           "bit-provenance comparison of the line-number decoder with the expression parsed from doc/bbcbasic.5; "
           "def-use of stream positions and stdin; structural rule on the indentation counter; scan-extent rule on the "
-          "loop-token counter",
+          "loop-token counter; control-dependence rule on the LISTO bits",
           "Decides that GOTO/GOSUB targets are decoded by the documented formula for all 2^24 operand values, that "
           "file and standard input cannot be treated differently, and that indentation is only adjusted by the "
           "documented amounts computed from exactly the bytes of the line. Token tables, framing, quoting and number formatting are not decided.",
@@ -140,10 +142,12 @@ def fill(claim, na):
     claim("C13",
           "bit-provenance comparison of the Watford sector-2 guard with the start-sector layout; branch-fact decision "
           "table on every identifying return of probe_format and the Acorn test; constant-sector read census; "
-          "guard/usage analysis of the Opus volume-table checks",
+          "guard/usage analysis of the Opus volume-table checks; must-fact `format is HDFS` at every two-sided answer; "
+          "linear form of the Opus catalogue slot",
           "Decides structural clauses for every disc: the guard uses the full start sector, each variant is returned "
           "only under the marker outcomes the property lists, identification reads only marker sectors by number, "
-          "and the Opus table's self-consistency does not depend on a geometry. Content-independence for arbitrary "
+          "the Opus table's self-consistency does not depend on a geometry, the two-sided flag is honoured for HDFS "
+          "only, and an Opus volume's catalogue is looked for by its letter. Content-independence for arbitrary "
           "bodies and the geometry preference order are not decided.",
           "Trusts that the smells_like_* predicates are the marker tests.",
           "DESIGN.md 3/C13")
@@ -160,7 +164,7 @@ def fill(claim, na):
           "mutation census of the drive tables; must-facts (with kills on selector updates) and dominance for every "
           "connect_internal call; structural rule on check_sequence_fits' unconditional occupancy tests; key-provenance "
           "of table lookups; must-facts at every advance of a drive-number search; interval analysis of drive-number "
-          "narrowing conversions",
+          "narrowing conversions; must-analysis of the --show-config listing limit",
           "Decides one clause for every option sequence: an attached surface is never overwritten, moved or hidden, and "
           "lookups use the requested selector, the search starts at 0 and skips only numbers found occupied or "
           "unsuitable, and an out-of-range drive number cannot wrap onto another drive. The full allocation function "
@@ -182,7 +186,7 @@ def fill(claim, na):
           "must-facts on the hint logic (extension tests only on a name with .gz stripped); folding of the zlib "
           "error switch and window-bits constant; CFG exit analysis of the inflate loop; zlib entry-point census; "
           "member-continuation rule with EOF-evidence reachability; opener selection rule; bound of every buffer "
-          "growth in both FileAccess::read implementations",
+          "growth in both FileAccess::read implementations; zlib-counter and mutable-static censuses",
           "Decides structural clauses for every image and .gz stream: compressed and uncompressed names get the same "
           "identification hints, only gzip framing is accepted, every zlib error raises, the loop ends only at the "
           "end of the last member, integrity checks are not disabled. Equality of outputs is not executed.",
